@@ -666,8 +666,12 @@ class ElementWalker(object):
     def robots_cannot_follow(cls, element):
         '''Return whether we cannot follow links due to robots.txt directives.
         '''
-        return (
-            element.tag == 'meta'
-            and element.attrib.get('name', '').lower() == 'robots'
-            and 'nofollow' in element.attrib.get('content', '').lower()
-        )
+        if element.tag != 'meta' \
+                or element.attrib.get('name', '').lower() != 'robots':
+            return False
+
+        content = element.attrib.get('content', '').lower()
+
+        # "none" is short for "noindex, nofollow".
+        return 'nofollow' in content or \
+            'none' in [token.strip() for token in content.split(',')]
